@@ -422,6 +422,48 @@ func cmdCheck(args []string) int {
 		fmt.Printf("ERROR property=%s %v\n", o.prop, err)
 		return 2
 	}
+	if o.tier == "thorough" && o.only == "" && len(overlay) == 0 {
+		// thorough tier: besides the longer solver budget, the property's must-fail corpus is run - every recorded
+		// property-breaking edit of /repo (applied through the loader's overlay, nothing is written) has to make
+		// some obligation of this check fail. A miss does not mean the property is violated; it is reported and
+		// recorded in the evidence as a weakness of the check.
+		ms, _ := loadMutants(o.verif)
+		run, detected := 0, 0
+		var missed []string
+		for _, m := range ms {
+			if m.Property != o.prop || strings.HasPrefix(m.File, "verif:") {
+				continue
+			}
+			ov, err := applyMutant(o.repo, m)
+			if err != nil {
+				missed = append(missed, m.Name+" (does not apply: "+err.Error()+")")
+				run++
+				continue
+			}
+			o2 := *o
+			o2.noEvid = true
+			o2.tier = "quick"
+			o2.timeout = 10 * time.Second
+			r2, err := runCheck(&o2, ov)
+			run++
+			hit := err == nil && len(r2.failed) > 0
+			if err == nil {
+				for _, b := range r2.bounded {
+					if !b.OK {
+						hit = true
+					}
+				}
+			}
+			if hit {
+				detected++
+			} else {
+				missed = append(missed, m.Name)
+				fmt.Printf("MUST-FAIL-MISSED property=%s mutant=%s\n", o.prop, m.Name)
+			}
+		}
+		res.extra["must_fail_corpus"] = map[string]any{"mutants_run": run, "detected": detected, "missed": missed,
+			"note": "property-breaking edits of /repo that compile; each must make an obligation of this check fail"}
+	}
 	return report(o, res)
 }
 
